@@ -511,6 +511,9 @@ func report(o *options, all []*hstate, known map[string]string, overlay map[stri
 			"harnesses":                     hsum,
 			"queries":                       map[string]int{"sat": ws.sat, "unsat": ws.unsat, "unknown": ws.unknown, "errors": ws.errors},
 			"solver_s":                      round1(ws.secs),
+			"queries_redecided_non_incrementally": ws.fallbacks,
+			"assertion_queries_cross_checked":    ws.crossChecked,
+			"cross_solver_disagreements":         ws.crossDisagree,
 			"solver":                        o.solver,
 			"load_and_ssa_build_s":          round1(loadSecs),
 			"unwinding_failures":            unwind,
@@ -539,6 +542,12 @@ func report(o *options, all []*hstate, known map[string]string, overlay map[stri
 		o.prop, tierName, states, transitions, ws.sat, ws.unsat, ws.unknown, ws.errors, ws.secs, v.tvOK, len(v.tvBad), unwind, aborts, wall)
 	if ws.lastErr != "" {
 		fmt.Println("  last solver error:", ws.lastErr)
+	}
+	if ws.crossChecked > 0 {
+		fmt.Printf("  cross-checked %d discharged assertion queries with a second solver: %d disagreements\n", ws.crossChecked, ws.crossDisagree)
+	}
+	if ws.crossDisagree > 0 {
+		fmt.Println("SOLVER-DISAGREEMENT: results are inconclusive")
 	}
 	if len(v.violations) > 0 {
 		return 1
